@@ -38,7 +38,8 @@ ASSUMPTIONS = ["float64 CPU, 1 thread", "scf_eps 1e-10 (SCF noise is 2-3 orders 
 REQUIRED_MONITORS = ["rows_compared", "padding_only_pairs", "swap_pairs", "cis_rows_compared", "md_rows_compared",
                      "sp2_calls", "perm_layouts", "parser_calls_checked", "equal_norb_batches", "finite_T_batches", "fermi_q_calls",
                      "md_dof_ratio_rows", "md_dof_scale_vel_rows", "scf_cycle_rows_compared", "cis_state_dipole_rows_compared",
-                     "cis_all_forces_rows_compared", "excited_fast_row_before_slow_row_batches"]
+                     "cis_all_forces_rows_compared", "excited_fast_row_before_slow_row_batches",
+                     "cisall_batches_after_heap_poisoning"]
 # thorough tier: cases not started after this many seconds are skipped and reported (env override for smoke tests)
 BUDGET_S = {"thorough": float(__import__("os").environ.get("VERIF_C05_BUDGET", "1700"))}
 CASE_TIMEOUT = 900.0
@@ -685,6 +686,38 @@ def _pulay_mech(case, member, alt_cache, sett_fn, e_batch, tolE, innocent, P_row
     return None
 
 
+def _pulay_flag_mech(case, member, alt_cache, sett_fn, a, b, k, tolE, innocent, first_reset_cycle):
+    """flag mismatch in a Pulay cell (one arm converged, the other truthfully flagged at the iteration cap): the listed
+    batch-global DIIS reset iff (1) the row's DIIS history was reset on behalf of another row while its alone run was still
+    iterating (reset cycle <= number of cycles the alone run needed, when the batch arm is the one that failed), (2) the arm
+    that failed really exhausted the iteration cap (it is not a late rejection), and (3) the converged arm sits on the
+    molecule's regular solution: the value every other solver path reaches alone."""
+    if case["conv"][0] != 2 or innocent <= 0 or a.get("_iters") is None or b.get("_iters") is None:
+        return None
+    fa, fb = _flag(a, 0), _flag(b, k)
+    if fa == fb:
+        return None
+    ia, ib = int(a["_iters"][0]), int(b["_iters"][k])
+    e_conv = float(b["Etot"][k]) if fa else float(a["Etot"][0])
+    if not (e_conv == e_conv):
+        return None
+    cap_hit = (ib if fb else ia) >= 1000
+    in_time = (first_reset_cycle <= ia) if fb else True
+    key = (member["name"], tuple(np.round(member["X"].reshape(-1), 9)))
+    if key not in alt_cache:
+        vals = []
+        for conv in ([1], [0, 0.3], [0, 0.6]):
+            try:
+                o = _alone(member, sett_fn(dict(case, conv=conv)))
+                if not _flag(o, 0):
+                    vals.append(float(o["Etot"][0]))
+            except Exception:  # noqa: BLE001
+                pass
+        alt_cache[key] = vals
+    regular = any(abs(e_conv - v) <= 100 * tolE for v in alt_cache[key])
+    return MECH_DIIS if (cap_hit and in_time and regular) else None
+
+
 def _exc_info(exc):
     import traceback
 
@@ -782,6 +815,9 @@ def _run_sp(case):
 
             def mech_fn(bad_keys, k=k, i=i, innocent=innocent, mols=mols, b=b):
                 # (the row-4 key names the non-terminating SP2 loop only - loop-bound trips - never a value mismatch)
+                if bad_keys == ["flag"]:
+                    first = min([e["k"] for e in diis_events if k in e["innocent_rows"]] or [10**9])
+                    return _pulay_flag_mech(case, mems[i], alt_cache, _settings, alone[i], b, k, tol["E"], innocent, first)
                 return _pulay_mech(case, mems[i], alt_cache, _settings, float(b["Etot"][k]), tol["E"], innocent, P_row=b["dm"][k])
 
             ok = _compare_row(acc, case, tol, alone[i], b, k, mems[i], "alone-vs-batch",
@@ -1190,11 +1226,100 @@ def _exc_run(S, C, sett, mols):
     except Exception as exc:  # noqa: BLE001
         return None, exc
     mol = out.pop("_mol")
+    out["_molobj"] = mol if len(S) == 1 else None        # alone runs keep the object (dense reference of the classifier)
     out.pop("_es", None)
     out.pop("_sett", None)
     for a in EXC_ATTRS:
         out[a] = run.npy(getattr(mol, a, None))
     return out, None
+
+
+MECH_ROOT = "davidson-root-skipped-symmetric-geometry-default-guess"
+DENSE_TOL = 1e-5
+
+
+def _dense_roots(mol, exc_method, b=0):
+    """lowest dense singlet CIS / RPA excitation energies of molecule b, from the finished call's own orbitals and integrals
+    (independent numpy reference of C16, vlib/c16_dense.py).  -> ascending array or None"""
+    from vlib import c16_dense as D
+
+    try:
+        am, pm = mol.atom_molid.numpy(), mol.pair_molid.numpy()
+        atoms = np.nonzero(am == b)[0]
+        first = int(atoms[0])
+        Z = mol.Z.numpy()[atoms].astype(int)
+        sel = np.nonzero(pm == b)[0]
+        ii, jj = mol.idxi.numpy()[sel] - first, mol.idxj.numpy()[sel] - first
+        par = {k: mol.parameters[k].detach().numpy()[atoms] for k in ("g_ss", "g_sp", "g_pp", "g_p2", "h_sp")}
+        norb, nocc = int(mol.norb[b]), int(mol.nocc[b])
+        C = mol.molecular_orbitals[b].detach().numpy()[:norb, :norb]
+        e = mol.e_mo[b].detach().numpy()[:norb]
+        w = mol.w.detach().numpy()[sel]
+        if not D.all_finite(C, e, w, *par.values()):
+            return None
+        G = D.eri_ao(Z, list(zip(ii.tolist(), jj.tolist())), w, par["g_ss"], par["g_sp"], par["g_pp"], par["g_p2"], par["h_sp"])
+        A, B = D.dense_AB(G, C, e, list(range(nocc)), list(range(nocc, norb)))
+        if exc_method == "rpa":
+            r = D.rpa_eig(A, B)
+            return None if r is None else np.asarray(r[0], float)
+        return np.asarray(D.cis_eig(A)[0], float)
+    except Exception:  # noqa: BLE001   (no reference -> no classification)
+        return None
+
+
+def _root_skip_mech(dense, ea, eb, nj):
+    """listed C16 mechanism iff one arm reproduces the dense lowest roots while the other arm's k-th root sits at or above the
+    dense (k+1)-th root, i.e. that arm skipped a root.  -> (mech or None, which arm skipped)"""
+    if dense is None or len(dense) <= nj or not (np.all(np.isfinite(ea[:nj])) and np.all(np.isfinite(eb[:nj])) and np.all(np.isfinite(dense))):
+        return None, None
+
+    def matches(x):
+        return bool(np.all(np.abs(x[:nj] - dense[:nj]) <= DENSE_TOL))
+
+    def skipped(x):
+        return any(x[k] >= dense[k + 1] - DENSE_TOL and x[k] > dense[k] + DENSE_TOL for k in range(nj))
+
+    if matches(ea) and skipped(eb):
+        return MECH_ROOT, "batch"
+    if matches(eb) and skipped(ea):
+        return MECH_ROOT, "alone"
+    return None, None
+
+
+MECH_RPA_UNINIT = "rpa-batch-reads-uninitialised-subspace-buffers"
+
+
+def _rpa_zero_init_agrees(S, C, sett, mols, order, alone, nj):
+    """counterfactual used only to CLASSIFY a non-finite / raising RPA batch: the same call with the `torch.empty` /
+    `torch.empty_like` allocations of seqm.seqm_functions.rpa replaced by zero-filled ones (allocation only, nothing else).
+    -> True iff that call completes and every row's roots agree with the alone runs."""
+    import torch
+
+    import seqm.seqm_functions.rpa as rpa
+
+    class _T:
+        def __getattr__(self, n):
+            return getattr(torch, n)
+
+        def empty(self, *a, **k):
+            return torch.zeros(*a, **k)
+
+        def empty_like(self, x, **k):
+            return torch.zeros_like(x, **k)
+
+    saved = rpa.torch
+    rpa.torch = _T()
+    try:
+        b, exc = _exc_run(S, C, sett, mols)
+    finally:
+        rpa.torch = saved
+    if exc is not None or b.get("cis_energies") is None:
+        return False
+    for k, i in enumerate(order):
+        d = np.abs(np.asarray(alone[i]["cis_energies"][0], float)[:nj] - np.asarray(b["cis_energies"][k], float)[:nj])
+        if not np.all(d <= A_EXC):
+            return False
+    return True
 
 
 def _run_cisall(case):
@@ -1222,6 +1347,20 @@ def _run_cisall(case):
     for order in case["orders"]:
         mols = [mems[i] for i in order]
         S, C = _batch_arrays(mols, case["pad"], case["padval"], case["seed"])
+        # allocator traffic before the batched solve: memory handed out afterwards is not zero.  Correct code never
+        # reads uninitialised memory, so this cannot change a result (fix 826ed66: rpa.py read torch.empty buffers)
+        from vlib.c15jobs import _poison_heap
+        import seqm.basics as _sb
+        for _name in ("rpa", "rcis_batch", "rcis_any_batch"):  # poison again at the entry of the excited-state solvers
+            _f = getattr(_sb, _name, None)
+            if callable(_f) and not getattr(_f, "_verif_poison", False):
+                def _wrapped(*a_, _f=_f, **k_):
+                    _poison_heap(1)
+                    return _f(*a_, **k_)
+                _wrapped._verif_poison = True
+                setattr(_sb, _name, _wrapped)
+        _poison_heap(1)
+        acc.count("cisall_batches_after_heap_poisoning")
         b, exc = _exc_run(S, C, sett, mols)
         if case.get("tag") == "sym-dist":
             sig = [case["members"][i].get("sigma", 0.05) for i in order]
@@ -1233,7 +1372,18 @@ def _run_cisall(case):
             if "did not converge" in info["msg"] or "not converged" in info["msg"]:
                 acc.count("cisall_batch_solver_not_converged")      # same standing as a non-convergence flag: not judged
                 continue
-            acc.viol.append({"clause": "cisall-batch-raises-alone-does-not", "mech": None, "detail": dict(det, order=order, exception=info)})
+            mech = None
+            if case["exc_method"] == "rpa" and _rpa_zero_init_agrees(S, C, sett, mols, order, alone, nj):
+                mech = MECH_RPA_UNINIT
+                acc.count("rpa_uninitialised_buffer_classified")
+            acc.viol.append({"clause": "cisall-batch-raises-alone-does-not", "mech": mech, "detail": dict(det, order=order, exception=info)})
+            continue
+        if case["exc_method"] == "rpa" and b.get("cis_energies") is not None and not np.all(np.isfinite(np.asarray(b["cis_energies"], float)[:, :nj])):
+            mech = MECH_RPA_UNINIT if _rpa_zero_init_agrees(S, C, sett, mols, order, alone, nj) else None
+            if mech:
+                acc.count("rpa_uninitialised_buffer_classified")
+            acc.viol.append({"clause": "cisall-batch-non-finite-roots", "mech": mech,
+                             "detail": dict(det, order=order, roots_batch=np.asarray(b["cis_energies"], float)[:, :nj].tolist())})
             continue
         for k, i in enumerate(order):
             a = alone[i]
@@ -1249,7 +1399,9 @@ def _run_cisall(case):
                     bad[name] = float(val)
 
             chk("dEtot", abs(float(a["Etot"][0]) - float(b["Etot"][k])), A_E)
-            chk("d_excitation", np.abs(ea[:nj] - eb[:nj]).max(), A_EXC)
+            dexc = float(np.abs(ea[:nj] - eb[:nj]).max())
+            if not (dexc <= A_EXC):
+                bad["d_excitation"] = dexc          # its margin is recorded below, unless the row is attributed to a listed mechanism
             chk("d_ground_force", np.abs(a["force"][0][:n] - b["force"][k][:n]).max(), A_F)
             if a.get("dipole") is not None and b.get("dipole") is not None:
                 chk("d_ground_dipole", np.abs(a["dipole"][0] - b["dipole"][k]).max(), A_MU)
@@ -1273,9 +1425,25 @@ def _run_cisall(case):
             # (cis_state_relaxed_dipole / cis_state_unrelaxed_dipole are the rows of the LAST computed root, whose upper neighbour is
             #  unknown, so they are covered through the all_cis_* rows of the judged states only)
             if bad:
-                acc.viol.append({"clause": "cisall-alone-vs-batch", "mech": None,
-                                 "detail": dict(det, order=order, row=k, mol=mems[i]["name"], differences=bad)})
+                mech, arm = None, None
+                if "d_excitation" in bad:
+                    if "_dense" not in a:
+                        a["_dense"] = _dense_roots(a["_molobj"], case["exc_method"]) if a.get("_molobj") is not None else None
+                    mech, arm = _root_skip_mech(a["_dense"], ea, eb, nj)
+                    if mech:
+                        acc.count("excited_root_skip_classified_rows")
+                if not mech and "d_excitation" in bad:
+                    acc.upd("cisall_d_excitation", dexc, A_EXC)
+                acc.viol.append({"clause": "cisall-alone-vs-batch", "mech": mech,
+                                 "detail": dict(det, order=order, row=k, mol=mems[i]["name"], differences=bad, arm_that_skipped_a_root=arm,
+                                                roots_alone=ea[:nj].tolist(), roots_batch=eb[:nj].tolist(),
+                                                dense_lowest=None if a.get("_dense") is None else a["_dense"][:nj + 2].tolist())})
+            if "d_excitation" not in bad:
+                acc.upd("cisall_d_excitation", dexc, A_EXC)
             nontrivial = True
+    for a in alone:
+        a.pop("_molobj", None)
+        a.pop("_dense", None)
     return {"nontrivial": nontrivial, "violations": acc.viol, "margins": acc.margins, "monitors": acc.mon, "cells": sorted(acc.cells),
             "obs": {"members": [m["name"] for m in mems], "cis_alone": [np.asarray(a["cis_energies"][0]).tolist() for a in alone],
                     "published": [k for k in EXC_ATTRS if alone[0].get(k) is not None], "worst": acc.margins}}
